@@ -110,13 +110,6 @@ Definition set_builds (k : skind) (l : list val) : bool :=
   | KSet => match set_build crank [] l with Some _ => true | None => false end
   | _ => true
   end.
-(* ... and leaves the members in the order in which the value lists them *)
-Definition set_sorted (k : skind) (l : list val) : bool :=
-  match k with
-  | KSet => match set_build crank [] l with Some s => list_eqb val_eqb s l | None => false end
-  | _ => true
-  end.
-
 (* a value in VALUE position (an item of a sequence, the value of an association): an intrinsic
    literal or a collection of such values; associations only as the entries of a Catalog / Map
    (inside another sequence the parser merges them by key); the keys of a Catalog / Map are
@@ -133,16 +126,18 @@ Fixpoint rt_val (v : val) {struct v} : bool :=
   | _ => leaf_ok v
   end.
 
-(* every Set lists its members in the order of the ranking (the model of a Set value carries
-   the members in collator order; a Set whose order depends on a type name the round trip
-   changes — uint8 "byte" / "unsigned", Go slice "array" / Array — does not satisfy this:
-   fixes/known-set-order-depends-on-width.json) *)
-Fixpoint sets_sorted (v : val) {struct v} : bool :=
+(* every Set lists its members in the order the Set constructor gives them: building the Set
+   from the (canonical) members in the listed order leaves the list as it is.  (The model of a
+   Set value carries the members in collator order.  A Set whose order depends on a type name
+   the round trip changes — uint8 "byte" / "unsigned", Go slice "array" / Array — does not
+   satisfy this: fixes/known-set-order-depends-on-width.json.) *)
+Fixpoint sets_sorted (v : val) {struct v} : Prop :=
   match v with
-  | VSeq k l => forallb sets_sorted l && set_sorted k (map canon l)
-  | VMapping _ _ vs => forallb sets_sorted vs
+  | VSeq k l => fold_right (fun x P => sets_sorted x /\ P) True l
+                /\ (k = KSet -> set_build crank [] (map canon l) = Some (map canon l))
+  | VMapping _ _ vs => fold_right (fun x P => sets_sorted x /\ P) True vs
   | VAssoc _ x => sets_sorted x
-  | _ => true
+  | _ => True
   end.
 
 (* THE ROUND-TRIP UNIVERSE: a collection (ParseSource accepts collections only) within the
